@@ -3,7 +3,7 @@ from vf.props.e4cfg import *
 LEVEL = 'other'
 JOBS = 6      # each obligation runs a portfolio of z3 processes on big-integer polynomials: memory-bound, keep the machine below saturation
 EXPLANATION = ('(1) cbmc, shift covariance: the real rational-stepping kernels (poly-fir0.h: vpoly0, u100_0) from any state: the virtual position '
-               'advances by exactly M/L per output and the phase stays in [0,L): M more inputs <=> L more outputs at the same phase (C04 lemma); '
+               'advances by exactly M/L per output and the phase stays in [0,L): M more inputs <=> L more outputs at the same phase (C04 lemma); the real dft_stage_fn carries the decimation phase remM and the interpolation phase exactly from one overlap-save block to the next (period-M structure); '
                '(2) cbmc, gain exactly once: the real prepare_poly_fir_coefs writes table(gain m) == m * table(gain 1) for EVERY entry of every '
                'interpolation order and both table layouts (basis inputs, symbolic position/value); soxr_create hands the engines user scale x '
                'datatype full-scale ratio (power of two); (3) hybrid E4: DC gain of the whole real conversion and of each of its L output phases '
@@ -28,5 +28,9 @@ def obligations(tier):
         cfgs += [Cfg(1, 3, MQ, DP, e2e=1, scale=0.25), Cfg(2, 3, HQ, 0, e2e=1, scale=2.0), Cfg(1, 64, LQ, DP, e2e=1, i0=300, scale=0.5), Cfg(8, 1, HQ, DP, e2e=1, scale=2.0)]
     obls += [e2e_obl(c, ('gain',), tier) for c in cfgs]
     obls += [e2e_obl(c, ('gain', 'sym'), tier) for c in align_cfgs(tier)[:3]]
+    # shift covariance through the DFT stages: decimation phase remM / interpolation phase at carried exactly from block to block
+    obls += [dft_obl(1, 3), dft_obl(1, 3, dbl=1), dft_obl(3, 2), dft_obl(3, 2, fdm=1)]
+    if tier == 'thorough':
+        obls += [dft_obl(2, 3), dft_obl(1, 5, dbl=1), dft_obl(3, 4, dbl=1, simd=1)]
     obls.append(init_qq_obl())      # real _soxr_init for the quick recipe: cubic stage inside its envelope
     return obls
